@@ -45,11 +45,17 @@ func (p *VarXpathPostprocessor) Process(_ *http.Response, body io.Reader) (map[s
 	return result, nil
 }
 
-func (p *VarXpathPostprocessor) getValuesFromDOM(doc *html.Node, xpathQuery string) ([]string, error) {
+func (p *VarXpathPostprocessor) getValuesFromDOM(doc *html.Node, xpathQuery string) (values []string, err error) {
 	expr, err := xpath.Compile(xpathQuery)
 	if err != nil {
 		return nil, err
 	}
+	// xpath library reports evaluation type errors (e.g. number('x')) by panicking
+	defer func() {
+		if r := recover(); r != nil {
+			values, err = nil, fmt.Errorf("xpath %q evaluation failed: %v", xpathQuery, r)
+		}
+	}()
 
 	res := expr.Evaluate(htmlquery.CreateXPathNavigator(doc))
 	iter, ok := res.(*xpath.NodeIterator)
@@ -58,7 +64,6 @@ func (p *VarXpathPostprocessor) getValuesFromDOM(doc *html.Node, xpathQuery stri
 		return []string{fmt.Sprint(res)}, nil
 	}
 
-	var values []string
 	for iter.MoveNext() {
 		node := iter.Current()
 		values = append(values, node.Value())
